@@ -142,7 +142,7 @@ impl<'h> FindMatchesImpl<'h> {
             return;
         }
         let end = matched.span().end;
-        self.advance_to(end);
+        self.advance_to_relative(end);
     }
 
     /// Advances the given char_indices iterator to the end of the given match.
@@ -168,6 +168,12 @@ impl<'h> FindMatchesImpl<'h> {
     /// If the new position is less than the current position of the char_indices iterator, the
     /// function returns the current position of the char_indices iterator.
     pub(crate) fn advance_to(&mut self, position: usize) -> usize {
+        // The position is an absolute position in the haystack, like the positions of matches.
+        self.advance_to_relative(position.saturating_sub(self.offset))
+    }
+
+    /// Advance the char_indices iterator to the given position relative to the current offset.
+    fn advance_to_relative(&mut self, position: usize) -> usize {
         if position < self.last_position {
             // The new position is less than the current position of the char_indices iterator.
             // The iterator is advanced by one character and the next character is not returned by
